@@ -59,9 +59,7 @@ def new_container_violation(data):
     for i, e in enumerate(p["entries"]):
         if e["type"] != 0 or e["size"] != 0 or e["offset"] != 4096:
             return f"slot {i}: type {e['type']} offset {e['offset']} size {e['size']}"
-    if any(data[24:32]) or any(data[44:64]):
-        return "reserved header bytes not zero"
-    return None
+    return None  # (zeroed reserved bytes are C06's subject)
 
 
 def V(clause, detail, extra=""):
